@@ -229,6 +229,8 @@ def summarize(sc, ch, w):
     a["mm"] = [(sorted(m.tags), m.kind, m.site, m.detail, list(ch.choices)) for m in w.mm]
     exc = None if w.exception is None else (w.exception[0], type(w.exception[2]).__name__, w.exception[3])
     a["outcomes"] = {(tuple(sorted(w.stats.items())), exc)}
+    if w.model is not None:
+        w.stats["susp_done"] = w.model.counts["suspended"]
     a["stats"] = dict(w.stats)
     return a
 
